@@ -200,7 +200,12 @@ func c09Fingerprint(snap simapi.Snapshot, sets []string) []string {
 		}
 		for _, rev := range world.RevisionsOf(snap, world.NS) {
 			if c := world.ControllerOf(rev); c != nil && c.UID == s.UID {
-				out = append(out, fmt.Sprintf("revision %s data=%s of %s", rev.Name, revDataHash(rev), name))
+				var lk []string
+				for k, v := range rev.Labels {
+					lk = append(lk, k+"="+v)
+				}
+				sort.Strings(lk)
+				out = append(out, fmt.Sprintf("revision %s data=%s of %s labels=%v", rev.Name, revDataHash(rev), name, lk))
 			}
 		}
 	}
